@@ -15,7 +15,7 @@ import (
 	"github.com/lidofinance/dc4bc/fsm/types/requests"
 )
 
-var c11Kinds = []string{"deal-from-second-polynomial", "deal-encrypted-to-wrong-key", "ciphertext-truncated", "ciphertext-garbled",
+var c11Kinds = []string{"deal-with-unknown-dealer-index", "deal-from-second-polynomial", "deal-encrypted-to-wrong-key", "ciphertext-truncated", "ciphertext-garbled",
 	"commitments-one-coefficient-altered", "commitments-too-short", "commitments-too-long", "response-with-complaint", "deal-not-a-deal"}
 
 type rngReader struct{ r interface{ Next() uint64 } }
@@ -98,10 +98,37 @@ func runC11(w *World, tier string) (bool, interface{}) {
 				}
 				switch kind {
 				case "ciphertext-truncated":
+					// boundary lengths around the encoded point sizes as often as arbitrary ones
+					if w.Tape.Bool(1, 2, "boundaryLen") {
+						ls := []int{1, 2, 15, 16, 31, 32, 33, 40, 46, 47, 48, 49, 63, 64, 65, 95, 96, 97}
+						l := ls[w.Tape.Choose(len(ls), "truncLen")]
+						if l < len(req.Deal) {
+							req.Deal = req.Deal[:l]
+							break
+						}
+					}
 					req.Deal = req.Deal[:1+w.Tape.Choose(len(req.Deal)-1, "truncAt")]
 				case "ciphertext-garbled":
 					k := w.Tape.Choose(len(req.Deal), "garbleAt")
 					req.Deal[k] ^= 0x5a
+				case "deal-with-unknown-dealer-index":
+					// the genuine sealed deal, opened with the addressee's key (hook H2), its dealer index
+					// replaced by one that is no participant, sealed again for the addressee
+					pt, err := w.Airs[V].M.SimDecrypt(req.Deal)
+					if err != nil {
+						return result
+					}
+					var dm map[string]interface{}
+					if json.Unmarshal(pt, &dm) != nil {
+						return result
+					}
+					dm["Index"] = []int{n, n + 5, 99, 65535, 1 << 30}[w.Tape.Choose(5, "badIndex")]
+					bz, _ := json.Marshal(dm)
+					enc, err := ecies.Encrypt(suite, w.Airs[V].M.GetPubKey(), bz, suite.Hash)
+					if err != nil {
+						return result
+					}
+					req.Deal = enc
 				case "deal-not-a-deal":
 					enc, err := ecies.Encrypt(suite, w.Airs[V].M.GetPubKey(), []byte(`{"Index":0,"Deal":null}`), suite.Hash)
 					if err != nil {
@@ -200,6 +227,12 @@ func runC11(w *World, tier string) (bool, interface{}) {
 	}
 	sts := states(c, round)
 	sig := kind
+	for i, a := range w.Airs {
+		if len(a.Panics) > 0 {
+			w.Fail("C11", "addressee-machine-crashes/"+kind, fmt.Sprintf("machine %d terminated with a fault instead of refusing the deviating contribution (%s): %s", i, kind, a.Panics[0]))
+			return true, nil
+		}
+	}
 	for _, i := range members {
 		if !IsCancelled(w.Nodes[i].RoundState(round)) {
 			w.Fail("C11", "round-not-cancelled/"+sig, fmt.Sprintf("dealer %d deviated (%s, victim %d) but node %d is in %s (all: %v); victim error results: %v", D, kind, V, i, w.Nodes[i].RoundState(round), sts, sortedKeys(victimErrors)))
